@@ -28,6 +28,14 @@ def tau(name, dname, desc=None, J=None):
         k = kappa(name, J)
         if np.isfinite(k):
             t = max(t, 10 * EPS[dname] * k)  # calibrated: unchanged tree <= 1.2 eps kappa (ConFIG float32, kappa up to 3e3)
+            if name == "IMTLG":
+                # IMTL-G normalises v = pinv(J J^T) d by its SUM: when the entries of v nearly cancel (guard: |sum v| >= 1e-3 |v|_1) a
+                # relative error e in v becomes e |v|_1 / |sum v| in the weights.  Calibrated on the unchanged tree (float32,
+                # kappa 151, amplification 382: error 0.031 eps kappa amp in units of s |w|_1): 0.3 eps kappa amp
+                G = J @ J.T
+                v = np.linalg.pinv(G, rcond=1e-10) @ np.linalg.norm(J, axis=1)
+                if abs(v.sum()) > 0:
+                    t = max(t, 0.3 * EPS[dname] * k * float(np.abs(v).sum() / abs(v.sum())))
     return t
 
 
